@@ -1021,6 +1021,20 @@ pub fn replay_extrap(path: &str, text: &str) -> i32 {
                     println!("replay: no violation");
                     0
                 }
+                Err(StreamFail::Loosened { delta, raw, extrapolated, within: false }) => {
+                    let key = "extrapolation loosens the bound beyond the extrapolated range";
+                    match crate::harness::known_match("C13", key) {
+                        Some(what) => {
+                            println!("replay: reproduced (delta={} raw={} extrapolated={})", delta, raw, extrapolated);
+                            println!("KNOWN-FINDING: property=C13 {} [key: {}]", what, key);
+                            0
+                        }
+                        None => viol(format!(
+                            "{} of {:?}: at delta={} (beyond the extrapolated range) the un-extrapolated curve says {} and the extrapolated one {}",
+                            ek.text(), prefix, delta, raw, extrapolated
+                        )),
+                    }
+                }
                 Err(f) => viol(format!("{} of {:?}: {:?}", ek.text(), prefix, f)),
             }
         }
